@@ -14,6 +14,12 @@ package checks
 // excerpt and its index document. Then the removal is repeated, the cache is
 // reopened, rebuilt from scratch, and MergeAll is run without a new fetch.
 // `git-bug wipe` is judged by its stated end state only.
+//
+// The victim of a single-entity removal is in one of four states (c14Case.State):
+// present locally with 0..3 remote-tracking refs; fetched and never merged
+// (remote-tracking refs only); removed, fetched again, removed again; removed,
+// pulled again, removed again. Findings outside the first state carry a
+// ":state=<state>" suffix in their key.
 
 import (
 	"bytes"
@@ -67,7 +73,28 @@ type c14Case struct {
 	Bridge   bool   `json:"bridge_config"`
 	Unmerged bool   `json:"fetched_unmerged_entity"` // wipe: a remote entity was fetched and never merged
 	PreCache bool   `json:"cache_built_before"`      // entity API: a cache existed before the removal (informational)
+	// State of the victim when it is removed (single-entity removals only; needs a holding remote unless empty):
+	//   ""                 it exists locally (+ one remote-tracking ref per holding remote)
+	//   fetched-unmerged   it was created elsewhere, fetched from the holding remotes and never merged: remote-tracking refs only
+	//   removed-refetched  removed once (as above), fetched again from the holding remotes, removed again: remote-tracking refs only
+	//   removed-repulled   removed once, pulled again (fetch + merge: it legitimately comes back), removed again
+	State string `json:"state,omitempty"`
 }
+
+const (
+	c14FetchedUnmerged  = "fetched-unmerged"
+	c14RemovedRefetched = "removed-refetched"
+	c14RemovedRepulled  = "removed-repulled"
+)
+
+// what frame expects of the victim's refs between two observations
+type c14Expect int
+
+const (
+	c14Same       c14Expect = iota // nothing at all may differ
+	c14Gone                        // the victim's refs must have disappeared
+	c14GoneOrSame                  // a refused removal: the statement is silent about the victim's refs
+)
 
 type c14Result struct {
 	HarnessError string              `json:"harness_error,omitempty"`
@@ -91,6 +118,7 @@ type c14Env struct {
 	keys map[string]int
 
 	failedStage string
+	round       int // 1: the removal in the case's first state; 2: the removal after the entity was fetched / pulled again
 
 	w       *world.World
 	T, R2   *world.Replica
@@ -119,6 +147,16 @@ func (e *c14Env) seen(set, m string) {
 // finding records a refuting observation. Within one case only the findings of the
 // earliest failing stage are reported: what later stages see is a consequence.
 func (e *c14Env) finding(key, what string) {
+	if parts := strings.Split(key, ":"); parts[0] == "remove" {
+		// the state the victim was in when this removal was asked for (nothing appended for an entity that exists locally
+		// and is removed for the first time: the keys of that class are unchanged)
+		switch {
+		case e.cs.State == c14FetchedUnmerged:
+			key += ":state=" + c14FetchedUnmerged
+		case e.round == 2:
+			key += ":state=" + e.cs.State
+		}
+	}
 	parts := strings.Split(key, ":")
 	stage := ""
 	switch {
@@ -272,9 +310,11 @@ func storageOutsideCache(files []string) []string {
 	return out
 }
 
-// frame compares two raw observations. expectGone = the victim's refs must have
-// disappeared between before and after; otherwise nothing at all may differ.
-func (e *c14Env) frame(stage string, before, after c14Raw, expectGone bool) {
+// frame compares two raw observations. expect = c14Gone: the victim's refs must have
+// disappeared between before and after; c14Same: nothing at all may differ; c14GoneOrSame
+// (a refused removal): the victim's refs are not judged, nothing else may differ.
+func (e *c14Env) frame(stage string, before, after c14Raw, expect c14Expect) {
+	expectGone := expect == c14Gone
 	if before.Err != "" || after.Err != "" {
 		e.inconclusive(stage + ": raw observation failed: " + before.Err + after.Err)
 		return
@@ -287,6 +327,10 @@ func (e *c14Env) frame(stage string, before, after c14Raw, expectGone bool) {
 		for ref, h := range reader.b {
 			cls := e.refClass(ref)
 			ah, still := reader.a[ref]
+			if expect == c14GoneOrSame && strings.HasPrefix(cls, "victim-") {
+				e.count("victim_refs_not_judged_after_a_refused_removal", 1)
+				continue
+			}
 			if expectGone && strings.HasPrefix(cls, "victim-") {
 				if still {
 					e.finding(kp+"ref-left:"+cls, fmt.Sprintf("%s still lists %s after the removal of %s %s", reader.name, ref, e.cs.Kind, e.victim))
@@ -947,7 +991,11 @@ func (e *c14Env) build() error {
 		}
 	} else {
 		e.ns = "identities"
-		victimIdent, err = identity.NewIdentity(T.Repo, "victim", "victim@example.com")
+		vrepo := T.Repo
+		if cs.State == c14FetchedUnmerged {
+			vrepo = e.R2.Repo // the victim comes into existence on another replica
+		}
+		victimIdent, err = identity.NewIdentity(vrepo, "victim", "victim@example.com")
 		if err != nil {
 			return err
 		}
@@ -1000,6 +1048,12 @@ func (e *c14Env) build() error {
 			}
 		}
 	}
+	if cs.State != "" && len(e.holds) == 0 {
+		return fmt.Errorf("state %q needs a remote that holds the victim", cs.State)
+	}
+	if cs.State == c14FetchedUnmerged {
+		return e.buildFetchedUnmerged(rng, victimBug, victimIdent, hostCommit)
+	}
 	// now the victim comes into existence and goes to the holding remotes
 	if victimBug != nil {
 		if err := victimBug.Commit(T.Repo); err != nil {
@@ -1022,32 +1076,13 @@ func (e *c14Env) build() error {
 	}
 
 	// history points
-	editVictim := func(r *world.Replica, tag string) error {
-		if cs.Kind == "bug" {
-			return w.Edit(r, entity.Id(e.victim), []world.OpSpec{
-				{Kind: "comment", Text: "edit " + tag, Author: rng.Intn(2)},
-				{Kind: "title", Text: "victim " + e.victimMk[0] + " retitled " + tag, Author: rng.Intn(2)},
-			})
-		}
-		i, err := identity.ReadLocal(r.Repo, entity.Id(e.victim))
-		if err != nil {
-			return err
-		}
-		if err := i.Mutate(r.Repo, func(m *identity.Mutator) { m.Name = "victim " + tag }); err != nil {
-			return err
-		}
-		return i.Commit(r.Repo)
-	}
+	editVictim := func(r *world.Replica, tag string) error { return e.editVictim(rng, r, tag) }
 	if cs.Point >= 1 {
 		if err := editVictim(T, "local1"); err != nil {
 			return fmt.Errorf("edit: %w", err)
 		}
-		// a bystander is edited as well: its local ref is ahead of every remote
-		if len(e.bugIds) > 1 {
-			other := e.remaining(e.bugIds)[0]
-			if err := w.Edit(T, entity.Id(other), []world.OpSpec{{Kind: "comment", Text: "bystander edit"}}); err != nil {
-				return err
-			}
+		if err := e.editBystander(); err != nil {
+			return err
 		}
 	}
 	if cs.Point >= 2 {
@@ -1058,15 +1093,8 @@ func (e *c14Env) build() error {
 					return err
 				}
 			}
-			if ml := e.R2.Pull(h0); ml.Err != nil {
-				return fmt.Errorf("R2 pull: %w", ml.Err)
-			}
-			for _, a := range T.Authors {
-				ra, err := identity.ReadLocal(e.R2.Repo, a.Id())
-				if err != nil {
-					return fmt.Errorf("R2 misses author: %w", err)
-				}
-				e.R2.Authors = append(e.R2.Authors, ra)
+			if err := e.r2Joins(h0); err != nil {
+				return err
 			}
 			if err := editVictim(e.R2, "remote"); err != nil {
 				return fmt.Errorf("R2 edit: %w", err)
@@ -1089,9 +1117,57 @@ func (e *c14Env) build() error {
 			e.seen("history", "no-holding-remote:local-edits-only")
 		}
 	}
-	// settle: everything that the remotes have is fetched and merged, so that a later MergeAll has nothing to do
+	if err := e.settle(); err != nil {
+		return err
+	}
+	return e.buildHost(mk, bares, hostCommit)
+}
+
+// editVictim appends to the victim on replica r and commits.
+func (e *c14Env) editVictim(rng interface{ Intn(int) int }, r *world.Replica, tag string) error {
+	if e.cs.Kind == "bug" {
+		return e.w.Edit(r, entity.Id(e.victim), []world.OpSpec{
+			{Kind: "comment", Text: "edit " + tag, Author: rng.Intn(2)},
+			{Kind: "title", Text: "victim " + e.victimMk[0] + " retitled " + tag, Author: rng.Intn(2)},
+		})
+	}
+	i, err := identity.ReadLocal(r.Repo, entity.Id(e.victim))
+	if err != nil {
+		return err
+	}
+	if err := i.Mutate(r.Repo, func(m *identity.Mutator) { m.Name = "victim " + tag }); err != nil {
+		return err
+	}
+	return i.Commit(r.Repo)
+}
+
+// editBystander edits another bug in T: its local ref is ahead of every remote.
+func (e *c14Env) editBystander() error {
+	if others := e.remaining(e.bugIds); len(others) > 0 {
+		return e.w.Edit(e.T, entity.Id(others[0]), []world.OpSpec{{Kind: "comment", Text: "bystander edit"}})
+	}
+	return nil
+}
+
+// r2Joins: the second replica pulls everything remote h holds and adopts T's authors.
+func (e *c14Env) r2Joins(h string) error {
+	if ml := e.R2.Pull(h); ml.Err != nil {
+		return fmt.Errorf("R2 pull: %w", ml.Err)
+	}
+	for _, a := range e.T.Authors {
+		ra, err := identity.ReadLocal(e.R2.Repo, a.Id())
+		if err != nil {
+			return fmt.Errorf("R2 misses author: %w", err)
+		}
+		e.R2.Authors = append(e.R2.Authors, ra)
+	}
+	return nil
+}
+
+// settle: everything that the remotes have is fetched and merged, so that a later MergeAll has nothing to do.
+func (e *c14Env) settle() error {
 	for _, name := range e.remotes {
-		ml := T.Pull(name)
+		ml := e.T.Pull(name)
 		if ml.Err != nil {
 			return fmt.Errorf("settle pull %s: %w", name, ml.Err)
 		}
@@ -1104,8 +1180,72 @@ func (e *c14Env) build() error {
 			}
 		}
 	}
+	return nil
+}
 
-	if cs.Unmerged && len(e.remotes) > 0 {
+// buildFetchedUnmerged: everything but the victim is published and settled; then the victim is created on a second
+// replica, published to the holding remotes, and T only fetches it. T never has a local ref of the victim.
+func (e *c14Env) buildFetchedUnmerged(rng interface{ Intn(int) int }, victimBug *bug.Bug, victimIdent *identity.Identity, hostCommit repository.Hash) error {
+	cs, T, R2 := e.cs, e.T, e.R2
+	for _, name := range e.holds {
+		if err := T.Push(name); err != nil {
+			return fmt.Errorf("push %s: %w", name, err)
+		}
+	}
+	if err := e.settle(); err != nil {
+		return err
+	}
+	if err := e.r2Joins(e.holds[0]); err != nil {
+		return err
+	}
+	if victimBug != nil {
+		if err := victimBug.Commit(R2.Repo); err != nil {
+			return fmt.Errorf("R2 commit victim: %w", err)
+		}
+		for _, m := range e.victimMk {
+			e.markerOf[m] = e.victim // asked for, never to be found in T
+		}
+	} else if err := victimIdent.Commit(R2.Repo); err != nil {
+		return fmt.Errorf("R2 commit victim: %w", err)
+	}
+	if cs.Point >= 1 {
+		if err := e.editVictim(rng, R2, "remote1"); err != nil {
+			return fmt.Errorf("R2 edit: %w", err)
+		}
+	}
+	for _, h := range e.holds {
+		if err := R2.Push(h); err != nil {
+			return fmt.Errorf("R2 push %s: %w", h, err)
+		}
+		if err := T.Fetch(h); err != nil {
+			return fmt.Errorf("fetch %s: %w", h, err)
+		}
+	}
+	if cs.Point >= 2 {
+		// a second edit reaches the first holding remote only: the remote-tracking refs of the victim differ
+		if err := e.editVictim(rng, R2, "remote2"); err != nil {
+			return fmt.Errorf("R2 edit: %w", err)
+		}
+		if err := R2.Push(e.holds[0]); err != nil {
+			return err
+		}
+		if err := T.Fetch(e.holds[0]); err != nil {
+			return err
+		}
+	}
+	if cs.Point >= 1 {
+		if err := e.editBystander(); err != nil {
+			return err
+		}
+	}
+	e.seen("history", fmt.Sprintf("victim-created-elsewhere:fetched-never-merged:point%d", cs.Point))
+	return e.buildHost(nil, nil, hostCommit)
+}
+
+func (e *c14Env) buildHost(mk func(string, bool) (*world.Replica, error), bares []*world.Replica, hostCommit repository.Hash) error {
+	cs, T, w := e.cs, e.T, e.w
+	alice := e.userIdent
+	if cs.Unmerged && len(e.remotes) > 0 && mk != nil {
 		// a third replica publishes an entity (and its author) that T only fetches
 		r3, err := mk("R3", false)
 		if err != nil {
@@ -1178,13 +1318,29 @@ func (e *c14Env) removalPrefix() string {
 	return e.victim
 }
 
+// refLess: the victim is (by construction) known to T through remote-tracking refs only when this round's removal is asked for.
+func (e *c14Env) refLess() bool {
+	return e.cs.State == c14FetchedUnmerged || (e.cs.State == c14RemovedRefetched && e.round == 2)
+}
+
+// stateName names the state the victim is in when this round's removal is asked for.
+func (e *c14Env) stateName() string {
+	switch {
+	case e.cs.State == c14FetchedUnmerged:
+		return c14FetchedUnmerged
+	case e.round == 2:
+		return e.cs.State
+	}
+	return "local"
+}
+
 func (e *c14Env) preconditions(before c14Raw) bool {
 	if before.Err != "" {
 		e.inconclusive("cannot observe the repository: " + before.Err)
 		return false
 	}
-	if _, ok := before.Refs["refs/"+e.ns+"/"+e.victim]; !ok {
-		e.inconclusive("the victim has no local ref before the removal")
+	if _, ok := before.Refs["refs/"+e.ns+"/"+e.victim]; ok == e.refLess() {
+		e.inconclusive(fmt.Sprintf("local ref of the victim before the removal: present=%v, state %s wants %v", ok, e.stateName(), !e.refLess()))
 		return false
 	}
 	for i, r := range e.remotes {
@@ -1195,6 +1351,7 @@ func (e *c14Env) preconditions(before c14Raw) bool {
 			return false
 		}
 	}
+	e.seen("victim_states_at_removal", fmt.Sprintf("%s/%s/%s/local-ref=%v/remote-tracking-refs=%d", e.cs.Kind, e.cs.Api, e.stateName(), !e.refLess(), len(e.holds)))
 	return true
 }
 
@@ -1237,7 +1394,7 @@ func (e *c14Env) afterwards(afterRaw c14Raw, beforeCache *c14CacheObs, again fun
 	outcome2 := again()
 	e.seen("second_removal_outcomes", e.cs.Api+": "+outcome2)
 	raw2 := e.observeRaw()
-	e.frame("second-removal", afterRaw, raw2, false)
+	e.frame("second-removal", afterRaw, raw2, c14Same)
 	o2, err := e.session(expBugs, expIdents)
 	if err != nil {
 		e.finding(fmt.Sprintf("remove:%s:%s:second-removal:cache-unusable", e.cs.Kind, e.cs.Api), "the cache cannot be opened after the second removal: "+err.Error())
@@ -1256,7 +1413,7 @@ func (e *c14Env) afterwards(afterRaw c14Raw, beforeCache *c14CacheObs, again fun
 		return
 	}
 	e.checkAbsent("rebuild", *o3, o)
-	e.frame("rebuild", raw2, e.observeRaw(), false)
+	e.frame("rebuild", raw2, e.observeRaw(), c14Same)
 
 	// MergeAll without a new fetch
 	if e.cs.Api == "entity" {
@@ -1280,7 +1437,7 @@ func (e *c14Env) afterwards(afterRaw c14Raw, beforeCache *c14CacheObs, again fun
 		}
 	}
 	raw3 := e.observeRaw()
-	e.frame("mergeall", raw2, raw3, false)
+	e.frame("mergeall", raw2, raw3, c14Same)
 	o4, err := e.session(expBugs, expIdents)
 	if err != nil {
 		e.finding(fmt.Sprintf("remove:%s:%s:mergeall:cache-unusable", e.cs.Kind, e.cs.Api), "the cache cannot be opened after MergeAll: "+err.Error())
@@ -1323,12 +1480,20 @@ func (e *c14Env) runEntityAPI() {
 		return identity.Remove(e.T.Repo, entity.Id(e.victim))
 	}
 	if err := remove(); err != nil {
+		if e.refLess() {
+			// the entity does not exist locally: the statement does not say that such a removal has to be accepted
+			e.refused(before, c14ErrClass(err))
+			return
+		}
 		e.finding(fmt.Sprintf("remove:%s:entity:failed", e.cs.Kind), "the removal returned an error: "+err.Error())
 		return
 	}
 	e.res.Nontrivial = true
+	if e.refLess() {
+		e.count("accepted_removals_of_an_entity_without_local_ref", 1)
+	}
 	after := e.observeRaw()
-	e.frame("removal", before, after, true)
+	e.frame("removal", before, after, c14Gone)
 	if e.cs.PreCache {
 		// the entity layer cannot know about a cache built earlier; what a later session serves is recorded, not judged
 		if o, err := e.session(e.remaining(e.bugIds), e.remaining(e.identIds)); err == nil {
@@ -1349,7 +1514,77 @@ func (e *c14Env) runEntityAPI() {
 	e.afterwards(after, nil, func() string { return c14ErrClass(remove()) })
 }
 
+// refused records a removal that returned an error for an entity without local ref. Only the frame is judged:
+// whatever the refusal did to the victim's refs, nothing else may have changed.
+func (e *c14Env) refused(before c14Raw, how string) {
+	e.seen("removal_of_an_entity_without_local_ref", fmt.Sprintf("%s/%s/%s: refused (%s), not judged", e.cs.Kind, e.cs.Api, e.stateName(), how))
+	e.count("refused_removals_of_an_entity_without_local_ref", 1)
+	after := e.observeRaw()
+	e.frame("refused-removal", before, after, c14GoneOrSame)
+	left := 0
+	for ref := range after.Refs {
+		if strings.HasPrefix(e.refClass(ref), "victim-") {
+			left++
+		}
+	}
+	e.seen("victim_refs_after_a_refused_removal", fmt.Sprintf("%s/%s: %d of %d left", e.cs.Kind, e.cs.Api, left, len(e.holds)))
+}
+
+// runRefLessThroughCache: removal through the cache API or the CLI of an entity that T only knows through remote-tracking
+// refs. The cache does not know such an entity; a refusal is recorded, an accepted removal is judged like any other.
+func (e *c14Env) runRefLessThroughCache() {
+	before := e.observeRaw()
+	if !e.preconditions(before) {
+		return
+	}
+	attempt := func() (accepted bool, how string, ok bool) {
+		if e.cs.Api == "cli-rm" {
+			r := e.cli("bug", "rm", e.victim)
+			_ = e.T.Reopen(bug.ClockLoader)
+			if r.TimedOut {
+				return false, "timed out", false
+			}
+			return r.Code == 0, fmt.Sprintf("exit %d", r.Code), true
+		}
+		c, err := e.openCache()
+		if err != nil {
+			return false, "cannot open the cache: " + err.Error(), false
+		}
+		var rerr error
+		if e.cs.Kind == "bug" {
+			rerr = c.Bugs().Remove(e.victim)
+		} else {
+			rerr = c.Identities().Remove(e.victim)
+		}
+		if err := e.closeCache(); err != nil {
+			return false, "close: " + err.Error(), false
+		}
+		return rerr == nil, c14ErrClass(rerr), true
+	}
+	accepted, how, ok := attempt()
+	if !ok {
+		e.inconclusive("removal of an entity without local ref: " + how)
+		return
+	}
+	if !accepted {
+		e.refused(before, how)
+		return
+	}
+	e.res.Nontrivial = true
+	e.count("accepted_removals_of_an_entity_without_local_ref", 1)
+	after := e.observeRaw()
+	e.frame("removal", before, after, c14Gone)
+	e.afterwards(after, nil, func() string {
+		_, how, _ := attempt()
+		return how
+	})
+}
+
 func (e *c14Env) runCacheAPI() {
+	if e.refLess() {
+		e.runRefLessThroughCache()
+		return
+	}
 	allBugs, allIdents := append([]string{}, e.bugIds...), append([]string{}, e.identIds...)
 	sort.Strings(allBugs)
 	sort.Strings(allIdents)
@@ -1382,7 +1617,7 @@ func (e *c14Env) runCacheAPI() {
 		if err == nil {
 			e.finding(fmt.Sprintf("remove:%s:cache:ambiguous-prefix:accepted", e.cs.Kind), fmt.Sprintf("Remove(%q) matches several entities and returned no error", e.victim[:s]))
 		}
-		e.frame("ambiguous-prefix", before, e.observeRaw(), false)
+		e.frame("ambiguous-prefix", before, e.observeRaw(), c14Same)
 		oa := e.observeCache(c, allBugs, allIdents)
 		if !equalStrings(oa.Bugs, beforeCache.Bugs) || !equalStrings(oa.Idents, beforeCache.Idents) || oa.BugDocs != beforeCache.BugDocs {
 			e.finding(fmt.Sprintf("remove:%s:cache:ambiguous-prefix:cache-changed", e.cs.Kind), fmt.Sprintf("after the refused Remove(%q) the cache lists bugs %v identities %v", e.victim[:s], oa.Bugs, oa.Idents))
@@ -1409,7 +1644,7 @@ func (e *c14Env) runCacheAPI() {
 		return
 	}
 	after := e.observeRaw()
-	e.frame("removal", before, after, true)
+	e.frame("removal", before, after, c14Gone)
 	e.afterwards(after, &beforeCache, func() string {
 		c2, err := e.openCache()
 		if err != nil {
@@ -1427,6 +1662,10 @@ func (e *c14Env) runCacheAPI() {
 }
 
 func (e *c14Env) runCliRm() {
+	if e.refLess() {
+		e.runRefLessThroughCache()
+		return
+	}
 	allBugs, allIdents := append([]string{}, e.bugIds...), append([]string{}, e.identIds...)
 	sort.Strings(allBugs)
 	sort.Strings(allIdents)
@@ -1454,7 +1693,7 @@ func (e *c14Env) runCliRm() {
 			e.finding("remove:bug:cli-rm:ambiguous-prefix:accepted", fmt.Sprintf("`git-bug bug rm %s` matches several bugs and exited 0: %s", e.victim[:s], r.Out))
 		}
 		_ = e.T.Reopen(bug.ClockLoader)
-		e.frame("ambiguous-prefix", before, e.observeRaw(), false)
+		e.frame("ambiguous-prefix", before, e.observeRaw(), c14Same)
 		e.count("ambiguous_prefix_removals_refused", 1)
 	}
 	prefix := e.removalPrefix()
@@ -1470,7 +1709,7 @@ func (e *c14Env) runCliRm() {
 	}
 	e.res.Nontrivial = true
 	after := e.observeRaw()
-	e.frame("removal", before, after, true)
+	e.frame("removal", before, after, c14Gone)
 	e.afterwards(after, beforeCache, func() string {
 		r := e.cli("bug", "rm", prefix)
 		_ = e.T.Reopen(bug.ClockLoader)
@@ -1593,6 +1832,63 @@ func (e *c14Env) runCliWipe() {
 	e.seen("second_removal_outcomes", fmt.Sprintf("cli-wipe: exit %d", r2.Code))
 }
 
+// comeBack: after the first removal the holding remotes still hold the victim. A NEW fetch legitimately brings its
+// remote-tracking refs back (removed-refetched); a new pull (fetch + merge) legitimately brings the entity back
+// (removed-repulled; through the cache for the cache API and the CLI, so that the cache learns about it).
+func (e *c14Env) comeBack() error {
+	if e.cs.State == c14RemovedRefetched {
+		for _, h := range e.holds {
+			if err := e.T.Fetch(h); err != nil {
+				return err
+			}
+		}
+		e.count("fetches_after_a_removal", len(e.holds))
+		return nil
+	}
+	if e.cs.Api == "entity" {
+		for _, h := range e.holds {
+			ml := e.T.Pull(h)
+			if ml.Err != nil {
+				return ml.Err
+			}
+			for _, res := range append(ml.Identities, ml.Bugs...) {
+				if res.Err != nil {
+					return fmt.Errorf("pull %s: %s: %w", h, res.Id, res.Err)
+				}
+				if string(res.Id) == e.victim {
+					e.seen("victim_merge_status_when_pulled_again", c14Status(res.Status))
+				}
+			}
+		}
+		e.count("pulls_after_a_removal", len(e.holds))
+		return e.dropCacheFiles() // the entity layer does not maintain the cache: the next session builds it
+	}
+	c, err := e.openCache()
+	if err != nil {
+		return err
+	}
+	for _, h := range e.holds {
+		if _, err := c.Fetch(h); err != nil {
+			_ = e.closeCache()
+			return err
+		}
+		for res := range c.MergeAll(h) {
+			if res.Err != nil {
+				err = fmt.Errorf("pull %s: %s: %w", h, res.Id, res.Err)
+			}
+			if string(res.Id) == e.victim {
+				e.seen("victim_merge_status_when_pulled_again", c14Status(res.Status))
+			}
+		}
+		if err != nil {
+			_ = e.closeCache()
+			return err
+		}
+	}
+	e.count("pulls_after_a_removal", len(e.holds))
+	return e.closeCache()
+}
+
 // ---- one case --------------------------------------------------------------------------------
 
 func c14Run(cs c14Case) c14Result {
@@ -1624,14 +1920,15 @@ func c14Run(cs c14Case) c14Result {
 			maxK = k
 		}
 	}
-	res.Shape = fmt.Sprintf("%s/%s/point%d/remotes%d/holding%d/sharedK%d/cross%d/prefix=%s/user=%v/bridge=%v/unmerged=%v/precache=%v",
-		cs.Kind, cs.Api, cs.Point, cs.Remotes, holdCount, maxK, cs.CrossK, cs.Prefix, cs.UserSet, cs.Bridge, cs.Unmerged, cs.PreCache)
+	res.Shape = fmt.Sprintf("%s/%s/point%d/remotes%d/holding%d/sharedK%d/cross%d/prefix=%s/user=%v/bridge=%v/unmerged=%v/precache=%v/state=%s",
+		cs.Kind, cs.Api, cs.Point, cs.Remotes, holdCount, maxK, cs.CrossK, cs.Prefix, cs.UserSet, cs.Bridge, cs.Unmerged, cs.PreCache, map[bool]string{true: "local", false: cs.State}[cs.State == ""])
 	if err := e.build(); err != nil {
 		res.HarnessError = "build: " + err.Error()
 		return finish()
 	}
 	e.count("other_entities", len(e.bugIds)+len(e.identIds)-1)
 	e.seen("remote_configurations", fmt.Sprintf("remotes=%d holds=%03b", cs.Remotes, cs.Holds))
+	e.round = 1
 	switch cs.Api {
 	case "entity":
 		e.runEntityAPI()
@@ -1643,6 +1940,29 @@ func c14Run(cs c14Case) c14Result {
 		e.runCliWipe()
 	default:
 		res.HarnessError = "unknown api " + cs.Api
+	}
+	if (cs.State == c14RemovedRefetched || cs.State == c14RemovedRepulled) && cs.Api != "cli-wipe" {
+		// the remotes still hold the entity: it is fetched (pulled) again, then removed again through the same API
+		switch {
+		case !res.Nontrivial || len(res.Inconclusive) > 0:
+			e.inconclusive("the first removal was not carried out: nothing to fetch again")
+		case len(res.Findings) > 0:
+			e.count("second_rounds_skipped_after_findings_of_the_first", 1)
+		default:
+			e.round = 2
+			if err := e.comeBack(); err != nil {
+				e.inconclusive("fetching the removed entity again: " + err.Error())
+				break
+			}
+			switch cs.Api {
+			case "entity":
+				e.runEntityAPI()
+			case "cache":
+				e.runCacheAPI()
+			case "cli-rm":
+				e.runCliRm()
+			}
+		}
 	}
 	res.Sample = map[string]any{"case": cs, "victim": e.victim, "bugs": len(e.bugIds), "identities": len(e.identIds)}
 	return finish()
@@ -1707,6 +2027,63 @@ func c14Cases(r *mon.Run) []c14Case {
 		}
 		out = append(out, cs)
 	}
+	return append(out, c14StateCases(r, len(out))...)
+}
+
+// c14StateCases: single-entity removals of a victim that is NOT simply "present locally, removed for the first time":
+// fetched and never merged, removed then fetched again, removed then pulled again — over every remote configuration
+// with at least one holding remote, through every API. (Appended to the list: the cases above are unchanged.)
+func c14StateCases(r *mon.Run, start int) []c14Case {
+	type tpl struct{ api, kind, state string }
+	cycle := []tpl{
+		{"entity", "bug", c14FetchedUnmerged}, {"entity", "identity", c14FetchedUnmerged},
+		{"entity", "bug", c14RemovedRefetched}, {"entity", "identity", c14RemovedRefetched},
+		{"cache", "bug", c14RemovedRepulled}, {"cli-rm", "bug", c14RemovedRepulled},
+		{"entity", "identity", c14FetchedUnmerged}, {"cache", "identity", c14RemovedRepulled},
+		{"entity", "identity", c14RemovedRepulled}, {"entity", "bug", c14RemovedRepulled},
+		{"entity", "bug", c14FetchedUnmerged}, {"entity", "identity", c14RemovedRefetched},
+		{"entity", "bug", c14RemovedRefetched},
+		// the cache cannot resolve an entity without local ref: what the cache API and the CLI do then is recorded
+		{"cache", "bug", c14FetchedUnmerged}, {"cli-rm", "bug", c14RemovedRefetched},
+		{"cache", "identity", c14RemovedRefetched}, {"cli-rm", "bug", c14FetchedUnmerged},
+	}
+	type rh struct{ remotes, holds int }
+	var combos []rh // 11 configurations with a holding remote
+	for n := 1; n <= 3; n++ {
+		for h := 1; h < 1<<n; h++ {
+			combos = append(combos, rh{n, h})
+		}
+	}
+	n := r.Pick(2*len(cycle), 11*len(cycle)) // thorough: every (template, configuration) pair (17 and 11 are coprime)
+	var out []c14Case
+	nth := map[string]int{}
+	for j := 0; j < n; j++ {
+		i := start + j
+		rng := mon.Rng(r.Seed, "c14-state-spec", j)
+		t := cycle[j%len(cycle)]
+		co := combos[(j+int(r.Seed))%len(combos)]
+		nth[t.state+t.kind]++
+		cs := c14Case{
+			Name: fmt.Sprintf("case-%d", i), Seed: r.Seed, Idx: i,
+			Kind: t.kind, Api: t.api, State: t.state,
+			Remotes: co.remotes, Holds: co.holds,
+			Point:  nth[t.state+t.kind] % 3, // the k-th case of a (state, kind) is at history point k mod 3
+			Others: 2 + rng.Intn(5),
+			Prefix: []string{"full", "shortest", "human"}[rng.Intn(3)],
+			// the CLI, and MergeAll of the cache (pulling again), need a user identity
+			UserSet: rng.Intn(2) == 0 || t.api == "cli-rm" || (t.api == "cache" && t.state == c14RemovedRepulled),
+		}
+		for k := 1 + rng.Intn(2); k > 0; k-- {
+			cs.SharedK = append(cs.SharedK, 1+rng.Intn(3))
+		}
+		if rng.Intn(3) == 0 {
+			cs.CrossK = 1 + rng.Intn(2)
+		}
+		if t.api == "entity" {
+			cs.PreCache = rng.Intn(4) == 0
+		}
+		out = append(out, cs)
+	}
 	return out
 }
 
@@ -1734,6 +2111,7 @@ func runC14(tier, replay string) int {
 	if replay == "" {
 		c14WipeEmptyNamespace(r)
 	}
+	refLessJudged := map[string]int{}
 	outcomes := runBatchesRetry[c14Case, c14Result](r, "c14", cases, 3, 3*time.Minute)
 	for i, oc := range outcomes {
 		cs := cases[i]
@@ -1758,6 +2136,10 @@ func runC14(tier, replay string) int {
 		}
 		r.Case(res.Shape, res.Nontrivial && len(res.Inconclusive) == 0)
 		r.Count("removals/"+cs.Api+"/"+cs.Kind, 1)
+		if cs.State != "" {
+			r.Count("cases_by_victim_state/"+cs.State+"/"+cs.Api+"/"+cs.Kind, 1)
+		}
+		refLessJudged[cs.Kind] += res.Counters["accepted_removals_of_an_entity_without_local_ref"]
 		r.Seen("history_points", fmt.Sprintf("%s/point%d", cs.Api, cs.Point))
 		for k, v := range res.Counters {
 			r.Count(k, v)
@@ -1778,15 +2160,23 @@ func runC14(tier, replay string) int {
 			fmt.Printf("replay of %s:\n%s\n", cs.Name, b)
 		}
 	}
-	min := r.Pick(25, 200)
+	min := r.Pick(50, 330)
 	if replay != "" {
 		min = 0
+	} else {
+		for _, kind := range []string{"bug", "identity"} {
+			if refLessJudged[kind] == 0 {
+				r.Inconclusive("no removal of a " + kind + " without local ref (fetched and never merged, or removed and fetched again) was carried out and judged")
+			}
+		}
 	}
-	return r.Finish("before/after observation (ref table by gitraw and by git for-each-ref, .git/config key multiset, .git/git-bug listing, object set, cache answers, index hits) around a removal through bug.Remove / identity.Remove, RepoCache.{Bugs,Identities}().Remove(prefix), `git-bug bug rm` and `git-bug wipe`, in repositories with 0..3 remotes of which every subset holds the entity, 2..10 other entities with engineered shared id prefixes, at three points of an edit/push/pull history; followed by a second removal, reopen, rebuild from scratch and MergeAll without fetch. A case is non-trivial when the removal was carried out and everything could be observed; distinct = distinct (kind, API, history point, #remotes, #holding remotes, longest engineered shared prefix, cross-namespace twin, prefix mode, user identity set, bridge config, fetched-unmerged entity, pre-built cache)",
+	return r.Finish("before/after observation (ref table by gitraw and by git for-each-ref, .git/config key multiset, .git/git-bug listing, object set, cache answers, index hits) around a removal through bug.Remove / identity.Remove, RepoCache.{Bugs,Identities}().Remove(prefix), `git-bug bug rm` and `git-bug wipe`, in repositories with 0..3 remotes of which every subset holds the entity, 2..10 other entities with engineered shared id prefixes, at three points of an edit/push/pull history; followed by a second removal, reopen, rebuild from scratch and MergeAll without fetch. The removed entity is in one of four states: present locally (with 0..3 remote-tracking refs); fetched from 1..3 remotes and never merged (remote-tracking refs only); removed, fetched again, removed again (remote-tracking refs only); removed, pulled again, removed again. A removal of an entity without local ref that returns an error (the cache API and the CLI cannot resolve such an entity) is recorded as refused and only its frame is judged. A case is non-trivial when the removal was carried out and everything could be observed; distinct = distinct (kind, API, history point, #remotes, #holding remotes, longest engineered shared prefix, cross-namespace twin, prefix mode, user identity set, bridge config, fetched-unmerged entity, pre-built cache, state of the victim)",
 		min, []string{
 			"ids cannot be chosen: the configuration (sizes, shared prefix lengths, remotes) is a function of the seed, the concrete ids are not",
 			"removed identities never authored anything (removing an author breaks its bugs by design, the statement leaves that to the caller)",
-			"before a single-entity removal every remote is fetched and merged, so that a later MergeAll without fetch has nothing legitimate to change",
+			"before a single-entity removal every remote is fetched and merged, so that a later MergeAll without fetch has nothing legitimate to change (state fetched-unmerged: this is done before the victim is published; only the victim is fetched and not merged)",
+			"a NEW fetch after a removal legitimately brings the remote-tracking refs back, and a new pull the entity: the states removed-refetched / removed-repulled judge the removal that follows, not the return",
+			"the statement does not say that removing an entity that does not exist locally must be accepted: a removal of an entity without local ref that returns an error is not judged (beyond: nothing else changed), an accepted one is judged in full",
 			"removal through the entity API is judged on repositories whose cache is (re)built afterwards; what a cache built *before* such a removal serves is recorded, not judged",
 			"for wipe only the stated end state is judged (no ref under the four namespaces, no git-bug.* key, no file under .git/git-bug); git objects are never expected to disappear",
 			"full-text assertions use planted marker tokens (zqNNx?k) that the English analyzer leaves alone",
